@@ -4,9 +4,9 @@ from fractions import Fraction
 from ..runner import Op
 
 ID = "C11"
-KINDS = {"U": ["polar_transform_eq_kron", "minSum_signLaw", "sc_clean", "extract_place", "sc_decodes_clean", "info_set_card", "info_mask_length"],
+KINDS = {"U": ["polar_transform_eq_kron", "minSum_signLaw", "sc_clean", "extract_place", "sc_decodes_clean", "info_set_card", "info_mask_length", "interleaved_is_bitreversal", "sc_decodes_clean_interleaved"],
          "K": ["rank_is_5G", "rank_is_permutation"]}
-PARTIAL = ["sum-product check rule 2 atanh(tanh(a/2) tanh(b/2)): its sign law is not proved in Lean; clean decoding in that regime, the interleaved (polar_i) variant "
+PARTIAL = ["sum-product check rule 2 atanh(tanh(a/2) tanh(b/2)): its sign law is not proved in Lean; clean decoding in that regime "
            "and the polar belief-propagation decoder are checked on the implementation against the property (tests); SC on arbitrary LLRs in the sum-product regime is compared with a float64 textbook recursion",
            "'chosen by the 5G reliability ranking': the extracted CSV is kernel-compared with the hand-held copy of TS 38.212 Table 5.3.1.2-1 in lean/Kaira/Rank5G.lean (trusted reference)"]
 RULE = ("pinfo / penc / pkron / psc lines for N = 2..1024: information masks, encodings of all (k <= 6) or random messages for both frozen values and both orders, "
@@ -75,9 +75,12 @@ def textbook_sc(llr, info, fz, interleaved, f):
 
 
 def f_sp(a, b):
-    t = math.tanh(a / 2) * math.tanh(b / 2)
-    t = max(min(t, 1 - 1e-16), -1 + 1e-16)
-    return max(min(2 * math.atanh(t), 1000.0), -1000.0)
+    """2 atanh(tanh(a/2) tanh(b/2)) in float64, evaluated through the identity sign.min + log1p(e^-|a+b|) - log1p(e^-|a-b|)
+    (the tanh form saturates in float64 beyond |x| ~ 37 - an earlier version of this oracle did, which was a false alarm)"""
+    if a == 0 or b == 0:
+        return 0.0
+    v = math.copysign(1, a) * math.copysign(1, b) * min(abs(a), abs(b)) + math.log1p(math.exp(-abs(a + b))) - math.log1p(math.exp(-abs(a - b)))
+    return max(min(v, 1000.0), -1000.0)
 
 
 def f_ms(a, b):
@@ -143,7 +146,7 @@ def corr(ctx):
                                 else:
                                     want = [b for b, i in zip(u, info) if i]
                                     ops.append(Op("pkron 0", "1", nontrivial=False,
-                                                  info={"site": "fec.decoders:SuccessiveCancellationDecoder.textbook", "config": dict(cfg, regime=regime, llr=row[:16], got=bstr(o), want=bstr(want))}, prop_ok=(bstr(o) == bstr(want))))
+                                                  info={"site": "fec.decoders:SuccessiveCancellationDecoder.textbook", "config": dict(cfg, regime=regime, llr=row, got=bstr(o), want=bstr(want))}, prop_ok=(bstr(o) == bstr(want))))
                             ctx.count("sc_arbitrary_%s" % regime, nl)
                     if not inter and N <= 64:
                         for regime in ("sum_product", "min_sum"):
@@ -170,6 +173,19 @@ def corr(ctx):
                                 ops.append(Op("pkron 0", "1", nontrivial=False,
                                               info={"site": "fec.decoders:BeliefPropagationPolarDecoder.history", "config": dict(cfg, regime=regime, bp_iters=iters, batch=nb, same_as_fresh_decoder=same)}, prop_ok=same and ok2))
                         ctx.count("bp_clean")
+    # deep check-node chains on weak LLRs (the least reliable position carries a message bit only when k is close to N)
+    for (N, k) in ((256, 255), (128, 127)) + (((1024, 1023), (512, 511)) if ctx.thorough else ()):
+        for inter in (False, True):
+            enc = quiet(PolarCodeEncoder, k, N, frozen_zeros=False, polar_i=inter)
+            msgs = [[rng.getrandbits(1) for _ in range(k)] for _ in range(2)]
+            X = enc(torch.tensor(msgs, dtype=torch.float32))
+            for regime in ("sum_product", "min_sum"):
+                sc = SuccessiveCancellationDecoder(enc, regime=regime)
+                for a in (0.5, 100.0):
+                    out = sc((1 - 2 * X) * a)
+                    ok = bool((out == torch.tensor(msgs, dtype=out.dtype)).all())
+                    ops.append(Op("pkron 0", "1", nontrivial=False, info={"site": "fec.decoders:SuccessiveCancellationDecoder.clean", "config": {"N": N, "k": k, "frozen_zeros": False, "polar_i": inter, "regime": regime, "magnitude": a, "batch": 2}}, prop_ok=ok))
+        ctx.count("deep_chain_clean")
     # user-supplied information masks are used verbatim
     for N, mask in ((8, [0, 1, 0, 1, 1, 0, 1, 1]), (8, [1, 1, 1, 1, 0, 0, 0, 0]), (16, [rng.getrandbits(1) for _ in range(16)])):
         k = sum(mask)
